@@ -89,3 +89,17 @@ package adapter
 //@ func (a *Adapter) ExportGenesis(ctx) (g)
 //@   requires[inv] a != nil && a.logger != nil
 //@   ensures[C17] g != nil && (item_set[a.params] ==> g.Params == item_params[a.params])
+
+// ---------------------------------------------------------------------------------------------
+// Object invariant: the injected dependencies are present. Proved on the constructor (New ends in
+// Validate), protected by the scan typeinv#immutable (no allocation or field store outside New).
+// Panic freedom (C14, C11, C17) may rely on it for every non-nil *Adapter.
+// ---------------------------------------------------------------------------------------------
+//@ macro adapterWF(a) = a.logger != nil && a.eventService != nil && a.bankKeeper != nil && a.dispatcher != nil && a.router != nil
+//@ typeinv Adapter adapterWF New SetRouter
+//@ func New(cdc, sb, logger, eventService, bankKeeper, dispatcher) (result, err)
+//@   ensures[C11,C14,C17] err == nil ==> result != nil && adapterWF(result)
+//   SetRouter is the one other function that stores to a field: it replaces the router by a non-nil one
+//@ func (a *Adapter) SetRouter(r) (err)
+//@   modifies a.router, r.sealed
+//@   ensures[C11,C14,C17] a != nil ==> adapterWF(a)
